@@ -33,7 +33,7 @@ func init() {
 	register(&propDef{id: "C14", level: "fault_enumeration", quickRuns: 150000, thorRuns: 20000000, quickS: 60, thorS: 600, chunk: 300,
 		rule:   "each run is one case: a generated prefix path of every step kind followed by 1-3 distinct functions of the menu (filter and aggregate in every order), one generated document, accessor mode on/off, 1-4 tasks sharing the parsed function, callbacks yielding and re-entering the library; the fault-free evaluation's n callback calls are computed by the protocol model and, when n <= 8, ALL 2^n subsets of failing calls are executed (otherwise all-fail, single-fail and random subsets); each evaluation's per-function call log, result and error kind are compared with the model applied to what the prefix alone selects; a case is non-trivial when at least one callback call is expected; distinct = distinct hash of (path, config, document)",
 		assume: append([]string{"exhaustive only over fault subsets of each generated case; the cases themselves are sampled", "the values selected before the first function are obtained from the library itself (retrieval of the prefix in plain mode)"}, commonAssume...)})
-	register(&propDef{id: "C06", race: true, level: "exploration", quickRuns: 60000, thorRuns: 10000000, quickS: 90, thorS: 1200, chunk: 100,
+	register(&propDef{id: "C06", race: true, post: c06Cold, level: "exploration", quickRuns: 60000, thorRuns: 10000000, quickS: 90, thorS: 1200, chunk: 100,
 		rule:   "each run (race-detector build): 2-16 tasks mix calls of 1-4 shared parsed functions (handed over unevaluated, 25% warmed up) on 1-3 shared read-only documents with Parse/Retrieve of own paths (valid, failing in each parser action, hit by an injected panic), calls of own and of published functions, under a drawn schedule strategy (boundary / random gaps / always-switch-at-seam / at-function / PCT), pool policy and map order; verdicts: race detector report with a library write, outcome != run-alone outcome, deadlock, step budget; a case is (path, first document); distinct = distinct hash",
 		assume: append([]string{"race freedom is judged by Go's race detector over the pairs of operations that ran in the same simulated run, within its shadow-memory window"}, commonAssume...)})
 	register(&propDef{id: "C04", level: "exploration", quickRuns: 200000, thorRuns: 20000000, quickS: 60, thorS: 600, chunk: 400,
